@@ -532,15 +532,17 @@ def why(sig, n, kws):
 # rejection) or the same result.  Only differences that (a) vanish with the default value and (b) show with the
 # non-default value are reported (key `arg <callable>.<parameter>`); everything else is only counted in the evidence.
 ARRAY_NAMES = {"x", "a", "x1", "x2", "y", "b", "lhs", "rhs", "v", "m", "ar", "array", "arr", "inputs", "operand", "p",
-               "image", "sample", "condition", "logits", "ary", "A"}
+               "image", "sample", "condition", "logits", "ary", "A", "query", "key", "value", "q", "k"}
 
 
 def _profiles():
     import numpy as np
     base = np.linspace(-1.5, 2.0, 12, dtype=np.float32).reshape(3, 4)
     sq = (np.arange(9, dtype=np.float32).reshape(3, 3) / 7.0) + np.eye(3, dtype=np.float32) * 2
+    att = np.sin(np.arange(80, dtype=np.float32)).reshape(2, 5, 2, 4)          # (batch, length, heads, head_dim)
     return [("f32[3,4]", lambda i: base + 0.37 * i), ("f32[3,3]", lambda i: sq + 0.11 * i),
-            ("f32[4]", lambda i: base[0] + 0.37 * i), ("f32[3,4]+", lambda i: np.abs(base) + 0.5 + 0.1 * i)]
+            ("f32[4]", lambda i: base[0] + 0.37 * i), ("f32[3,4]+", lambda i: np.abs(base) + 0.5 + 0.1 * i),
+            ("f32[2,5,2,4]", lambda i: np.roll(att, i, axis=1) * (1 + 0.5 * i))]
 
 
 def _alt_value(name, default, first):
@@ -564,6 +566,11 @@ def _alt_value(name, default, first):
             return [jnp.int32]
         if name == "initial":
             return [0.5]
+        if name in ("bias", "mask") and getattr(first, "ndim", 0) == 4:          # attention: (batch, heads, q_len, kv_len)
+            b_, t_, n_, _ = first.shape
+            if name == "bias":
+                return [np.cos(np.arange(b_ * n_ * t_ * t_, dtype=np.float32)).reshape(b_, n_, t_, t_)]
+            return [np.broadcast_to(np.tril(np.ones((t_, t_), dtype=bool)), (b_, n_, t_, t_)).copy()]
         if name in ("where", "mask"):
             m = (np.arange(first.size).reshape(first.shape) % 2 == 0) if hasattr(first, "shape") else None
             return None if m is None else [m]
@@ -604,24 +611,42 @@ def _export_run(fn, arrays):
     return sess.run(None, feeds)
 
 
+EXPLORE_SKIP_MODULES = ("jax.random", "jax.lax", "jax.image", "jax.numpy.linalg", "dm_pix", "jax2onnx", "jax.nn.initializers")
+
+
 def _explorable(e):
     """(function, required array parameters, optional parameters) or None"""
-    if not inspect.ismodule(e["target"]) or not e["target"].__name__.startswith(("jax.numpy", "jax.nn")):
-        return None
-    if ".linalg" in e["target"].__name__:
+    if not inspect.ismodule(e["target"]) or e["target"].__name__.startswith(EXPLORE_SKIP_MODULES):
         return None
     so = e["orig_sigs"][0]
     req = [p for p in so.parameters.values() if p.default is p.empty and p.kind in (p.POSITIONAL_ONLY, p.POSITIONAL_OR_KEYWORD)]
     opts = [p for p in so.parameters.values() if p.default is not p.empty]
     if not req or not opts or any(p.name not in ARRAY_NAMES for p in req) or \
-            any(p.kind is p.VAR_POSITIONAL for p in so.parameters.values()):
+            any(p.kind is p.VAR_POSITIONAL for p in so.parameters.values()) or \
+            any(p.default is p.empty and p.kind is p.KEYWORD_ONLY for p in so.parameters.values()):
         return None
     return getattr(e["target"], e["attr"]), req, opts
 
 
-def _probe_argument(f, arrays, base, name, v):
-    """-> (status, detail): 'invalid' (JAX rejects it), 'no-effect', 'rejected' (export raises), 'same', 'DIFFERENT'"""
-    call = (lambda *xs, _f=f, _k=name, _v=v: _f(*xs, **{_k: _v}))
+def _crossing(e):
+    """positional index at which original and substitute name the parameter differently although the name exists on the
+    other side too (a hint that positional arguments are routed to a different parameter)"""
+    op, wp = _pos(e["o"]), _pos(e["w"])
+    on, wn = {p[0] for p in e["o"]}, {p[0] for p in e["w"]}
+    for i, (a, b) in enumerate(zip(op, wp)):
+        if a[0] != b[0] and (a[0] in wn or b[0] in on):
+            return {"position": i, "original": a[0], "substitute": b[0]}
+    return None
+
+
+def _probe_argument(f, arrays, base, name, v, before=None):
+    """-> (status, detail): 'invalid' (JAX rejects it), 'no-effect', 'rejected' (export raises), 'same', 'DIFFERENT'.
+    before=None: pass name=v by keyword; otherwise pass positionally after the default values `before` of the
+    optional parameters that precede it (which means the same as omitting them)"""
+    if before is None:
+        call = (lambda *xs, _f=f, _k=name, _v=v: _f(*xs, **{_k: _v}))
+    else:
+        call = (lambda *xs, _f=f, _b=tuple(before), _v=v: _f(*xs, *_b, _v))
     try:
         want = _flat(call(*arrays))
     except BaseException:
@@ -649,9 +674,10 @@ def explore_arguments(ctx, usable, all_profiles=False, budget_s=600, only=None):
            "parameter_values_tried": 0, "jax_rejects_value": 0, "value_without_effect_on_inputs": 0,
            "rejected_at_export": 0, "same_result": 0, "differences": [], "budget_exhausted": False,
            "rejections": []}
+    out["positional_crossings_hint"] = [dict(_crossing(e), callable=e["key"][4:]) for e in usable if _crossing(e)]
     logging.disable(logging.CRITICAL)
     try:
-        for e in usable:
+        for e in sorted(usable, key=lambda e: _crossing(e) is None):        # callables with a crossing hint first
             if only is not None and e["key"] != only[0]:
                 continue
             if time.time() - t0 > budget_s:
@@ -684,30 +710,40 @@ def explore_arguments(ctx, usable, all_profiles=False, budget_s=600, only=None):
                 if not plain_ok:                     # not this property's business, and nothing can be attributed to an argument
                     out["plain_call_export_differs_or_fails"].append(f"{e['key'][4:]} on {pname}")
                     continue
+                pos_params = [q for q in e["orig_sigs"][0].parameters.values()
+                              if q.kind in (q.POSITIONAL_ONLY, q.POSITIONAL_OR_KEYWORD)]
                 for p in opts:
                     if only is not None and p.name != only[1]:
                         continue
                     vals = _alt_value(p.name, p.default, arrays[0])
-                    if not vals or p.kind is p.POSITIONAL_ONLY:
+                    if not vals:
                         continue
-                    if not py_binds(e["sub_sig"], len(arrays), (p.name,)):
-                        continue                     # already a signature finding
-                    for v in vals:
-                        out["parameter_values_tried"] += 1
-                        status, detail = _probe_argument(f, arrays, base, p.name, v)
-                        if status == "invalid":
-                            out["jax_rejects_value"] += 1
-                        elif status == "no-effect":
-                            out["value_without_effect_on_inputs"] += 1
-                        elif status == "rejected":
-                            out["rejected_at_export"] += 1
-                            if len(out["rejections"]) < 10:
-                                out["rejections"].append(f"{e['key'][4:]}({p.name}={_value_text(v)}): {detail[:120]}")
-                        elif status == "same":
-                            out["same_result"] += 1
-                        else:
-                            out["differences"].append({"key": f"arg {e['key'][4:]}.{p.name}", "callable": e["key"][4:],
-                                                       "parameter": p.name, "value": _value_text(v), "inputs": pname, "how": detail})
+                    variants = []
+                    if p.kind is not p.POSITIONAL_ONLY and py_binds(e["sub_sig"], len(arrays), (p.name,)):
+                        variants.append(("keyword", None))
+                    if p in pos_params:
+                        j = pos_params.index(p)
+                        if j >= len(arrays) and py_binds(e["sub_sig"], j + 1, ()):
+                            variants.append(("positional", [q.default for q in pos_params[len(arrays):j]]))
+                    # a form the substitute does not bind is a signature finding already, not explored here
+                    for how_passed, before in variants:
+                        for v in vals:
+                            out["parameter_values_tried"] += 1
+                            status, detail = _probe_argument(f, arrays, base, p.name, v, before)
+                            if status == "invalid":
+                                out["jax_rejects_value"] += 1
+                            elif status == "no-effect":
+                                out["value_without_effect_on_inputs"] += 1
+                            elif status == "rejected":
+                                out["rejected_at_export"] += 1
+                                if len(out["rejections"]) < 10:
+                                    out["rejections"].append(f"{e['key'][4:]}({p.name}={_value_text(v)}, {how_passed}): {detail[:120]}")
+                            elif status == "same":
+                                out["same_result"] += 1
+                            else:
+                                out["differences"].append({"key": f"arg {e['key'][4:]}.{p.name}", "callable": e["key"][4:],
+                                                           "parameter": p.name, "passed": how_passed, "value": _value_text(v),
+                                                           "inputs": pname, "how": detail})
     finally:
         logging.disable(logging.NOTSET)
     out["wall_s"] = round(time.time() - t0, 1)
@@ -859,9 +895,12 @@ def run(ctx):
         if d["key"] in seen_arg:
             continue
         seen_arg.add(d["key"])
-        ctx.violate(d["key"], f"{d['callable']}(<arrays {d['inputs']}>, {d['parameter']}={d['value']}): JAX computes one result, the exported "
-                              f"model another ({d['how']}), although the same call with the default value exports correctly",
-                    {"kind": "argument", "sig_key": "sig " + d["callable"], "parameter": d["parameter"], "value": d["value"], "inputs": d["inputs"]})
+        form = f"{d['parameter']}={d['value']}" if d["passed"] == "keyword" else f"..., {d['value']} as positional argument `{d['parameter']}`"
+        what = (f"{d['callable']}(<arrays {d['inputs']}>, {form}): JAX computes one result, the exported model another ({d['how']}), "
+                f"although the same call without that argument exports correctly")
+        ctx.violate(d["key"], what, {"kind": "argument", "sig_key": "sig " + d["callable"], "parameter": d["parameter"],
+                                     "passed": d["passed"], "value": d["value"], "inputs": d["inputs"]})
+        known_entries.append({"property": "C19", "key": d["key"], "status": "known", "what": what})
 
     os.makedirs(os.path.join(common.VERIF, ".scratch", "c19"), exist_ok=True)
     with open(os.path.join(common.VERIF, ".scratch", "c19", "pairs.txt"), "w") as fh:
